@@ -275,6 +275,9 @@ def _prepare(cfg, root, rel):
     ids = cfg["ids"]
     if ids is not None:
         ids = tuple(ids) if cfg["id"] % 2 else list(ids)
+        if cfg["id"] % 5 == 4:
+            import numpy as np
+            ids = np.array(ids)          # ids computed with numpy (e.g. from np.where / np.arange)
         if cfg.get("int_ids"):
             ids = int(ids[0])
     home = os.environ.get("HOME")
